@@ -21,6 +21,7 @@ type Job struct {
 	C15      *C15Cfg `json:"c15,omitempty"`
 	C10      *C10Cfg `json:"c10,omitempty"`
 	C05      *C05Cfg `json:"c05,omitempty"`
+	C18      *C18Cfg `json:"c18,omitempty"`
 	Mode     string  `json:"mode"` // explore | split | replay
 	B        Bounds  `json:"bounds"`
 	Prefix   []int   `json:"prefix,omitempty"`
@@ -95,6 +96,8 @@ func runOnce(job *Job, ch vs.Chooser, trace bool) (*vs.Result, *Outcome) {
 		out, res = runC10(job.C10, cc, trace)
 	case "C05mon":
 		out, res = runC05(job.C05, cc, trace)
+	case "C18atom":
+		out, res = runC18(job.C18, cc, trace)
 	default:
 		return &vs.Result{Fatal: "unknown harness " + job.Harness}, nil
 	}
@@ -144,6 +147,8 @@ func (job *Job) cfgString() string {
 		return job.C10.String()
 	case job.C05 != nil:
 		return job.C05.String()
+	case job.C18 != nil:
+		return job.C18.String()
 	}
 	return job.Harness
 }
